@@ -81,8 +81,8 @@ seeded changes and which check catches which in §11.
   statements (C09 independence, C13 end to end, C14, the round trip of C15/C16, agreement of `fill_inplace` with `wrap`,
   C08's second sentence), the real
   tables of `unicode-linebreak` / `unicode-width` / `smawk` behind the assumed shapes.
-* **Robustness of the machinery** (§8, §11): 77 seeded property-breaking changes that compile and pass the upstream suite
-  (5 reverted fixes + 72 from independent sub-agents in four waves) are all reported; 25 behaviour-preserving refactors
+* **Robustness of the machinery** (§8, §11): 88 seeded property-breaking changes that compile and pass the upstream suite
+  (5 reverted fixes + 83 from independent sub-agents in five waves) are all reported; 25 behaviour-preserving refactors
   raise no alarm; every unit verifies under 8 different SMT seeds; the unchanged tree passes all 20 checks in both tiers.
 """)
 w(s1.rstrip()+"\n")
@@ -323,10 +323,10 @@ the property states.
 
 ## 11. Seeded changes and what catches them
 
-`seeded/` holds 77 changes that compile, pass the upstream suite in both feature sets, and break a property: the 5
-reverted fixes and 72 produced by independent sub-agents given **only** the property text and a scratch worktree (wave 1–2:
-two per property; wave 3: cooperating edits / indirect helpers / wrong fast paths; wave 4: changes that need something
-specific to manifest). Each was confirmed by `tools/seedverify.sh` (patch applies; suite passes in both feature sets;
+`seeded/` holds 88 changes that compile, pass the upstream suite in both feature sets, and break a property: the 5
+reverted fixes and 83 produced by independent sub-agents given **only** the property text and a scratch worktree (wave 1–2:
+two per property; wave 3: cooperating edits / indirect helpers / wrong fast paths; wave 4–5: changes that need something
+specific to manifest, avoiding the most obvious single-token edits). Each was confirmed by `tools/seedverify.sh` (patch applies; suite passes in both feature sets;
 its demonstration fails with the patch and passes without). `tools/seedtest.py` applies each to `/repo`, runs the checks
 of the properties it breaks, and undoes it; `seeded/RESULTS.json` is its output and **`seeded/RESULTS.md` the full table**
 (seed, property, files changed, Verus obligations failed, BEC contracts failed, undecided units, verdict).
@@ -341,6 +341,9 @@ Misses on first contact and what was strengthened (never by weakening a check):
 | 4 | w4_C17_A (display-width fast path in `fill_inplace`) | no ESC in `fill_inplace`'s alphabet (a bare ESC swallows the following space when the whole line is measured) | bare ESC and a CSI sequence added |
 | 4 | w4_C12_A (ASCII-is-one-column in `break_apart`) | no ASCII control character in force-broken words; Verus undecided (`char::is_ascii` had no spec) | tab added; `char::is_ascii` specified — now a Verus violation as well |
 | 4 | w4_C13_A (`trim_end()` in the shortcut) | coloured texts were single-space-joined with no trailing whitespace | joiners {" ", "  ", "\\n"} × trailing {"", " ", tab, CR, U+3000} |
+| 5 | w5_C07_A (`dedup()` of the width list in `WrapAlgorithm::wrap`) | the public dispatch was checked for C06 (partition) only; three or more listed widths never reached it | BEC contracts `C07.dispatch.first_fit` / `C03.dispatch.optimal_fit` (dispatch == algorithm called directly, width lists with equal neighbours); U17 now proves that the words and every listed width reach the algorithm unchanged |
+| 5 | w5_C20_A (ASCII fast path for cell widths in a new helper of `columns.rs`) | no escape sequence or zero-width character in the column alphabet; Verus undecided (unknown helper function) | `ESC[1m`, tab and a combining mark added to the column alphabet |
+| 5 | w5_C09_A (`split('\\n')` + `strip_suffix('\\r')` for CRLF) | CRLF only ran over an alphabet without a lone `\\r`; every other suite used LF | lone `\\r` in the CRLF alphabet; the broad-alphabet and random passes of every wrap suite now run each option combination with both line endings |
 
 **Verus on its own** (`tools/seedverus.py`, `seeded/VERUS.json`: each change applied to a scratch copy, only the Verus units run):
 a Verus obligation rejects 42 of the 77 changes; the others end *undecided* in Verus (a new construct without a spec, a
